@@ -10,6 +10,8 @@ Record case := {
   (* observed *)
   c_prep_events : list event;       (* what Prepare asked the environment, in order *)
   c_prep_ok : bool;                 (* Prepare returned nil *)
+  c_post_account : option N;        (* the account the duty carries when it is handed to Propose *)
+  c_post_randao : N;                (* the RANDAO reveal it carries then *)
   c_obs : result                    (* what Propose asked the environment, when, and what it submitted *)
 }.
 
@@ -74,8 +76,11 @@ Definition case_plans (c : case) : list (list call) :=
 
 Definition agree (c : case) : bool :=
   let '((pevs, pok), res) := run (c_cfg c) (c_env c) (c_duty c) (c_prepare c) in
+  let D := duty_after (c_cfg c) (c_env c) (c_duty c) (c_prepare c) in
   events_eqb pevs (c_prep_events c)
   && bool_eqb pok (c_prep_ok c)
+  && option_eqb N.eqb (d_account D) (c_post_account c)
+  && (d_randao D =? c_post_randao c)
   && (* two relay goroutines acting at one fake instant: Go's scheduler decides, the model does not;
         the generator avoids it, and such a case is left to P_b *)
      (negb (tie_free (e_deadline (c_env c)) (case_plans c)) || result_eqb res (c_obs c)).
@@ -252,6 +257,15 @@ Definition some_call_answered (c : case) : bool :=
 Definition no_relay_no_submit_b (c : case) : bool :=
   negb (proposal_blinded c) || some_call_answered c || negb (is_some (o_submit (c_obs c))).
 
+(* 1b. a duty whose Prepare succeeded carries, when it is handed to Propose, the account the provider
+       holds for ITS validator and the reveal that account gave when asked for ITS epoch -- whatever
+       other duties the same service handled before or in between *)
+Definition prepared_duty_own (c : case) : bool :=
+  negb (c_prepare c && c_prep_ok c)
+  || (is_some (c_post_account c)
+      && option_eqb N.eqb (c_post_account c) (provided_account c)
+      && option_eqb N.eqb (Some (c_post_randao c)) (e_sig_randao (c_env c))).
+
 (* the RANDAO reveal the duty carries into Propose: the one it had, unless Prepare succeeded *)
 Definition randao_of (c : case) : N :=
   if c_prepare c && c_prep_ok c
@@ -305,7 +319,8 @@ Definition P_b (c : case) : bool :=
   && no_relay_no_submit_b c
   && degrades_ok c
   && other_slot_refused c
-  && unready_silent c.
+  && unready_silent c
+  && prepared_duty_own c.
 
 Definition mismatches (cs : list case) : list N := failing_ids c_id agree cs.
 Definition violations (cs : list case) : list N := failing_ids c_id P_b cs.
